@@ -210,7 +210,7 @@ def check_packet(cx, i, lst, is_bundle, rng, hostile):
     acc.count('nested_packets_compared', nargs[2])
     for f in feats:
         acc.count(f'feature/{f}')
-    for slug in sorted(set(mism)):
+    for slug in sorted({M.mechanism(m) for m in mism}):
         acc.violation(f'C06/roundtrip-differs/{slug}',
                       {'case': i, 'input': before, 'dgram': dgram[:300],
                        'decoded': repr(dec)[:600], 'mode': cx.mode})
@@ -421,13 +421,30 @@ def gen_payload(rng, M, family, size_hint):
 
 
 def gen_elements(rng, M, family, target):
-    """Element lists with unique ids whose exact size (model arithmetic) is
-    close to `target` bytes as one bundle."""
+    """Element lists with unique ids whose exact size as one bundle (model
+    arithmetic: 16 + sum(4 + element)) is close to `target` bytes; family
+    'few' lands exactly on target rounded down to a multiple of 4."""
     els = []
     total = 16
     eid = 0
     hint = rng.choice([3, 6, 9, 11.5])
     ttf = (lambda L: None)
+    if family == 'few':
+        target -= target % 4
+        n = rng.randint(1, 3)
+        room = target - 16 - 24          # leave room for the filler element
+        for _ in range(n):
+            share = max(8, (room // n - 20) // 4 * 4 - rng.choice([0, 0, 400, 4000]))
+            share = min(share, 60000)
+            e = ['/e', eid, rng.randbytes(share)]
+            eid += 1
+            els.append(e)
+            total += 4 + M.size_of(M.expect_msg(e, ttf))
+        rest = target - total - 20       # filler: 20 + len(str), len % 4 == 0
+        if rest >= 0:
+            els.append(['/e', eid, 's' * rest])
+            total += 20 + rest
+        return els
     while total < target:
         fam = family
         if family == 'mixed+tiny':
@@ -521,7 +538,7 @@ def run_clump(spec, acc):
         rng = case_rng(spec['seed'], 'C06', 'clump', i)
         via = rng.choice(['clumped', 'clumped', 'sync', 'sync', 'sync'])
         family = rng.choice(['tiny', 'tiny', 'mixed', 'mixed', 'huge', 'under',
-                             'nested', 'mixed+tiny'])
+                             'nested', 'mixed+tiny', 'few', 'few'])
         limit = LIM if via == 'clumped' else LIM - 36
         k = rng.random()
         if k < 0.25:
@@ -532,6 +549,8 @@ def run_clump(spec, acc):
             target = rng.randint(200, 20000)
         else:
             target = int(limit * rng.uniform(1.05, 3.2))
+        if family == 'few':       # the boundary itself, 4 bytes at a time
+            target = rng.randint(65400, 65540)
         elements = gen_elements(rng, M, family, target)
         latency = rng.choice([None, 0, 0.2, 0.2, 1.5])
         exp_elems = [(M.expect_msg if isinstance(e[0], str) else M.expect_bundle)(
@@ -594,6 +613,11 @@ def run_clump(spec, acc):
                 part = exp_elems[lo:lo + len(els)]
                 plists = elements[lo:lo + len(els)]
                 cause, under = oversize_cause(cx, M, plists, part, len(raw))
+                if cause == 'element-prefix-not-counted' and len(dgrams) == 1 \
+                        and 4 * len(els) < len(raw) - M.UDP_MAX:
+                    # nothing was split although the whole does not fit, and
+                    # the element prefixes cannot account for the excess
+                    cause = 'bundle-not-split'
                 w = {'case': i, 'via': via, 'family': family,
                      'datagram_index': k, 'bytes': len(raw),
                      'elements_in_datagram': len(els),
@@ -639,7 +663,7 @@ def run_clump(spec, acc):
         slugs = set()
         for d, e in zip(got, exp_elems):
             slugs.update(M.compare(d, e))
-        for s in sorted(slugs):
+        for s in sorted({M.mechanism(x) for x in slugs}):
             acc.violation(f'C06/clump/element-altered/{s}',
                           {'case': i, 'via': via, 'family': family})
         if repr(elements) != before:
@@ -725,7 +749,7 @@ def run_drecv(spec, acc):
             mism = M.compare(osc.decode(raw), exp)
         except osc.OscError as e:
             mism = ['nonconformant-' + M._slug(str(e))]
-        for s in sorted(set(mism)):
+        for s in sorted({M.mechanism(x) for x in mism}):
             acc.violation(f'C06/roundtrip-differs/{s}',
                           {'case': i, 'where': 'd_recv', 'blob_bytes': n})
         if len(raw) > M.UDP_MAX:
